@@ -20,7 +20,13 @@ def fields_of(p):
 
 
 class NetWorld:
-    def __init__(self, t0=0):
+    def __init__(self, t0=0, bare=False):
+        # bare: the same scenario built from library elements only - taps vanish (upstream gets the element itself, the
+        # element's `out` is the next element), every branch ends in a library PacketSink, nobody holds on to a packet or
+        # reads a counter while the simulation runs. What the sinks have recorded at the end is compared with the
+        # instrumented run (`sink_view`): an element that behaves differently when nobody watches it gives itself away.
+        self.bare = bare
+        self.sinks = {}
         self.env = TapEnvironment(t0)
         self.env.tap_enabled = False
         self.log = self.env.log
@@ -67,6 +73,11 @@ class NetWorld:
 class InTap:
     """What upstream sees instead of the element: logs, forwards to the real put(), logs the counters."""
 
+    def __new__(cls, w, name, elem, pre=None, post=None):
+        if getattr(w, 'bare', False):
+            return elem
+        return object.__new__(cls)
+
     def __init__(self, w, name, elem, pre=None, post=None):
         self.w, self.name, self.elem, self.pre, self.post = w, name, elem, pre, post
         self.element_id = getattr(elem, 'element_id', name) if hasattr(elem, '_element_id') else name
@@ -81,6 +92,11 @@ class InTap:
 
 
 class OutTap:
+    def __new__(cls, w, name, elem, nxt=None, post=None):
+        if getattr(w, 'bare', False):
+            return nxt
+        return object.__new__(cls)
+
     def __init__(self, w, name, elem, nxt=None, post=None):
         self.w, self.name, self.elem, self.nxt, self.post = w, name, elem, nxt, post
 
@@ -93,6 +109,14 @@ class OutTap:
 
 class Recorder:
     """Terminates a branch."""
+
+    def __new__(cls, w, name):
+        if getattr(w, 'bare', False):
+            from onl.packet import PacketSink
+            ps = PacketSink(w.env, rec_arrivals=True, absolute_arrivals=True, rec_waits=True, rec_flow_ids=True)
+            w.sinks[name] = ps
+            return ps
+        return object.__new__(cls)
 
     def __init__(self, w, name):
         self.w, self.name = w, name
@@ -151,6 +175,37 @@ class ScriptedRandom:
         return getattr(_r, name)
 
 
+def sink_view(w):
+    """sink name -> flow -> [(arrival time, size, creation time)] in arrival order, from either kind of world."""
+    out = {}
+    if getattr(w, 'bare', False):
+        for name, ps in w.sinks.items():
+            v = {}
+            for f in ps.arrivals:
+                v[repr(f)] = list(zip(ps.arrivals[f], ps.packet_sizes[f], ps.packet_times[f]))
+            out[name] = v
+        return out
+    for r in w.log:
+        if r[0] == 'SINK':
+            f = r[5]
+            out.setdefault(r[3], {}).setdefault(repr(f[1]), []).append((r[2], f[3], f[4]))
+    return out
+
+
+def compare_sink_views(a, b):
+    """None, or a description of the first difference between an instrumented run (a) and its bare twin (b)."""
+    for name in sorted(set(a) | set(b)):
+        fa, fb = a.get(name, {}), b.get(name, {})
+        for f in sorted(set(fa) | set(fb)):
+            la, lb = fa.get(f, []), fb.get(f, [])
+            if la != lb:
+                k = next((i for i, (x, y) in enumerate(zip(la, lb)) if x != y), min(len(la), len(lb)))
+                return ('at sink %s, flow %s: %d packets with taps and %d without; packet #%d (arrival, size, created): %r with '
+                        'taps, %r without' % (name, f, len(la), len(lb), k + 1, la[k] if k < len(la) else None,
+                                              lb[k] if k < len(lb) else None))
+    return None
+
+
 def injector(w, target, workload, src='src'):
     """Harness process: hands the packets of a workload [(t, flow, size), ...] to target.put at their instants;
     packets listed for one instant are injected back to back in one action (a burst)."""
@@ -175,8 +230,10 @@ def injector(w, target, workload, src='src'):
         else:
             # optional 4th field: age of the packet (it was created `age` before it reaches the element)
             p = Packet(env.now - (it[3] if len(it) > 3 and it[3] else 0), size, n, src=src, flow_id=flow, payload=('pl', n))
-            made.append(p)
+            if not getattr(w, 'bare', False) or any(len(x) > 4 and x[4] is not None for x in workload):
+                made.append(p)           # (a bare world keeps no packet alive longer than the elements do)
         target.put(p)
+        del p
 
 
 def start_injector(w, target, workload, src='src'):
